@@ -427,3 +427,29 @@ package websocket
 //@   assert at "if err != nil || !continuation": [C06 ends-at-fin] continuation == (f[0] & 128 == 0)
 //@   // a control frame between fragments changes nothing of the message being assembled
 //@   assert call (*Stream).asyncNextMessage: [C06 carried-on] arg1 == b && arg2 == readBytes && arg3 == continuation && arg4 == messageType && arg5 == callback
+
+// AsyncFlush is Flush one frame per completion: the head of the queue goes to the connection,
+// the rest stays queued in the same order, and the completion closure either reports the
+// transport's error or flushes on with the same callback. (What AsyncWriteNext does with the
+// frame is the asynchronous twin of WriteNext and is not under contract.)
+//@ func fnparam:(*Stream).AsyncFlush.callback
+//@   trusted
+//@ func fnparam:(*Stream).AsyncFlush$1.callback
+//@   trusted
+
+//@ func (*Stream).AsyncFlush
+//@   prop C16, C08
+//@   requires s.codecConn != nil && callback != nil && qInv(s)
+//@   // first queued first: the frame handed over is the head, and the queue is what was behind it
+//@   assert any call AsyncWriteNext: [in-order] alias(arg1, *old(s.pendingFrames[0])) &&
+//@          len(s.pendingFrames) == old(len(s.pendingFrames)) - 1 &&
+//@          (forall j :: 0 <= j && j < len(s.pendingFrames) ==> s.pendingFrames[j] == old(s.pendingFrames[j + 1]))
+//@   // nothing to flush is success, reported now
+//@   assert any call callback: [idle] old(len(s.pendingFrames)) == 0 && arg0 == nil
+
+//@ func (*Stream).AsyncFlush$1
+//@   prop C16, C08
+//@   requires s != nil && s.codecConn != nil && callback != nil && sent != nil && poolFrame(sent) && qInv(s)
+//@   // a transport error ends the flush and is reported as it is; otherwise the flush goes on with the same callback
+//@   assert any call callback: [error-ends] err != nil && arg0 == err
+//@   assert any call (*Stream).AsyncFlush: [goes-on] err == nil && arg1 == callback
